@@ -110,6 +110,10 @@ ALL_FEATURES = [
     "rec_lambdas",          # recursive functions that declare a local function / lambda *after*
                             # their recursive call
     "type_tables",          # comptime globals holding several `type` values in one aggregate
+    "alias_recursion",      # a function that calls itself through a global that is just its own
+                            # value:  hd :: st;  st :: (a) { .. hd(a - 1) .. }
+    "distinct_generics",    # one generic function instantiated with a distinct type and with its
+                            # base type, in different globals
     "indirect_refs",        # variants may name a definition of another file *through a third file*:
                             # imp1.imp2.name
 ]
@@ -2157,6 +2161,82 @@ class _Gen:
         it.uses = uses
         self.p.add(it)
 
+    def mk_alias_recursion(self):
+        r = self.rnd
+        st, hd = self.fresh("st"), self.fresh("hd")
+        sit = Item(st, "fn")
+        sit.is_function = True
+        sit.recursive = True
+        sit.deps.add(hd)
+        base = self.lit(1, 9)
+        step = self.iexpr(sit, "a", depth=1, exclude=(st, hd))
+        sit.render = lambda ref: (
+            "%s :: (a: i64) -> i64 {\n    if a <= 0 { %s } else { (%s + %s(a - 1)) %% 997 }\n}"
+            % (st, base, step(ref), ref(hd)))
+        arg = r.randint(0, 5)
+        sit.uses = lambda ref, tmp: ["emit(%s(%d));" % (ref(st), arg)]
+        hit = Item(hd, "fn_value")
+        hit.recursive = True
+        hit.deps.add(st)
+        hit.render = lambda ref: "%s :: %s;" % (hd, ref(st))
+        a2 = r.randint(0, 5)
+        hit.uses = lambda ref, tmp: ["emit(%s(%d));" % (ref(hd), a2)]
+        self.p.add(sit)
+        self.p.add(hit)
+        self.int_fns.append(st)
+
+    def mk_distinct_generic(self):
+        r = self.rnd
+        if not self.generic_type_fns:
+            self.mk_generic_type()
+        g = r.choice(self.generic_type_fns)
+        dn = None
+        for cand, under in sorted(self.distincts.items()):
+            if under == "i64":
+                dn = cand
+        if dn is None:
+            dn = self.fresh("D")
+            dit = Item(dn, "distinct")
+            self.distincts[dn] = "i64"
+            dit.render = lambda ref: "%s :: distinct i64;" % dn
+            self.p.add(dit)
+        # two consts: one instantiates g with the distinct type, the other with its base type; a
+        # chain of dependent consts delays one of them by a few scheduler rounds
+        chain_len = r.randint(0, 5)
+        prev = None
+        for _ in range(chain_len):
+            cn = self.fresh("c")
+            cit = Item(cn, "comptime")
+            if prev:
+                cit.deps.add(prev)
+                cit.render = (lambda ref, cn=cn, prev=prev: "%s :: comptime { %s + 1 };" % (cn, ref(prev)))
+            else:
+                v = r.randint(1, 9)
+                cit.render = (lambda ref, cn=cn, v=v: "%s : i64 : comptime { %d };" % (cn, v))
+            cit.uses = (lambda ref, tmp, cn=cn: ["emit(%s);" % ref(cn)])
+            self.p.add(cit)
+            self.int_consts.append(cn)
+            prev = cn
+        a, b = r.randint(1, 9), r.randint(1, 9)
+        n1 = self.fresh("k")
+        it1 = Item(n1, "comptime")
+        it1.deps |= {g, dn}
+        it1.render = lambda ref: "%s :: comptime { i64.(%s(%s, %s.(%d), %s.(%d))) };" % (
+            n1, ref(g), ref(dn), ref(dn), a, ref(dn), b)
+        it1.uses = lambda ref, tmp: ["emit(%s);" % ref(n1)]
+        n2 = self.fresh("k")
+        it2 = Item(n2, "comptime")
+        it2.deps.add(g)
+        if prev:
+            it2.deps.add(prev)
+        tail = (lambda ref: " + %s" % ref(prev)) if prev else (lambda ref: "")
+        it2.render = lambda ref: "%s :: comptime { %s(i64, %d, %d)%s };" % (n2, ref(g), b, a, tail(ref))
+        it2.uses = lambda ref, tmp: ["emit(%s);" % ref(n2)]
+        first, second = (it1, it2) if r.random() < 0.5 else (it2, it1)
+        self.p.add(first)
+        self.p.add(second)
+        self.int_consts.extend([n1, n2])
+
     def build(self):
         self.add_prelude()
         r = self.rnd
@@ -2256,6 +2336,10 @@ class _Gen:
             menu.append(("rec_lambda", self.mk_rec_lambda, 1))
         if "type_tables" in f and ("structs" in f or "distinct" in f):
             menu.append(("type_table", self.mk_type_table, 2))
+        if "alias_recursion" in f:
+            menu.append(("alias_recursion", self.mk_alias_recursion, 1))
+        if "distinct_generics" in f:
+            menu.append(("distinct_generic", self.mk_distinct_generic, 1))
         if "untyped_consts" in f:
             menu.append(("untyped_const", self.mk_untyped_const, 2))
         if "const_arrays" in f:
